@@ -125,6 +125,15 @@ func Assert(c bool, msg string) {
 func Region(name string, cond bool) {}
 
 func EqBytes(a, b []byte) bool { return string(a) == string(b) }
+func LessBytes(a, b []byte) bool { return string(a) < string(b) }
+
+// Ite is a non-forking conditional on integers.
+func Ite(c bool, a, b int) int {
+	if c {
+		return a
+	}
+	return b
+}
 func And(a, b bool) bool       { return a && b }
 func Or(a, b bool) bool        { return a || b }
 func Not(a bool) bool          { return !a }
